@@ -40,6 +40,14 @@ def cases(rng, tier):
         for p, sh, t in itertools.product(PRODUCERS, SHAPES, TERMS):
             for sk in (["default", "immediate", "own_ct"] if p in ("from_iterable", "range") else ["default"]):
                 yield {"op": "subscribe_run", "producer": p, "shape": sh, "term": t, "sched": sk, "n": rng.randrange(1, 6)}
+        # scheduler given at subscribe time: the thread's own current-thread singleton (must behave like the default), an
+        # ImmediateScheduler and a fresh CurrentThreadScheduler (the recorded explicit-scheduler finding)
+        for p, sh, t in itertools.product(PRODUCERS, ["direct", "merge", "concat_after"], TERMS):
+            for sk in (("sub_singleton", "sub_immediate", "sub_own_ct") if sh == "direct" else ("sub_singleton", rng.choice(["sub_immediate", "sub_own_ct"]))):
+                yield {"op": "subscribe_run", "producer": p, "shape": sh, "term": t, "sched": sk, "n": rng.randrange(1, 6)}
+        # the never-ending inner is PARKED in merge(max_concurrent)/concat_map's queue and subscribed when an earlier finite inner completes
+        for p, sh, t in itertools.product(PRODUCERS, ["merge_maxc_parked", "concat_map_parked"], TERMS):
+            yield {"op": "subscribe_run", "producer": p, "shape": sh, "term": t, "sched": "default", "n": rng.randrange(2, 6)}
         # the same thread earlier ran a pipeline that crashed out of subscribe() (its observer raised while another never-ending
         # step-wise source still had a step queued on the current-thread trampoline): later pipelines must be unaffected
         for p, sh, t in itertools.product(PRODUCERS, ["direct", "map_filter", "merge"], ["take", "first", "element_at"]):
@@ -54,10 +62,10 @@ def model_request(case):
         return None
     if case["term"] == "take_until":
         # the terminator depends on a second, queued source: the trampoline-queue model (drainQ) decides
-        if case["sched"] != "default" or case["producer"] not in QUEUE_MODEL:
+        if case["sched"] not in ("default", "sub_singleton") or case["producer"] not in QUEUE_MODEL:
             return None
         return {"op": "drain_q", "producer": QUEUE_MODEL[case["producer"]], "fuel": BUDGET}
-    return {"op": "subscribe_run", "shared": case["sched"] == "default", "n": needed(case["term"], case["n"]), "fuel": BUDGET}
+    return {"op": "subscribe_run", "shared": case["sched"] in ("default", "sub_singleton"), "n": needed(case["term"], case["n"]), "fuel": BUDGET}
 
 
 class Budget(BaseException):
@@ -100,7 +108,8 @@ def _run(case):
             rx.merge(a, b).subscribe(flaky)
         except ValueError:
             pass
-    sched = {"default": None, "immediate": ImmediateScheduler(), "own_ct": CurrentThreadScheduler()}[schedk]
+    sched = {"immediate": ImmediateScheduler(), "own_ct": CurrentThreadScheduler()}.get(schedk)
+    sub_sched = {"sub_singleton": CurrentThreadScheduler.singleton(), "sub_immediate": ImmediateScheduler(), "sub_own_ct": CurrentThreadScheduler()}.get(schedk)
     if producer == "from_iterable": src = rx.from_iterable(infinite(), scheduler=sched).pipe(ops.map(count))
     elif producer == "range": src = rx.range(0, 10 ** 9, scheduler=sched).pipe(ops.map(count))
     elif producer == "repeat_value": src = rx.repeat_value(7).pipe(ops.map(count))
@@ -114,6 +123,8 @@ def _run(case):
     elif shape == "concat": o = src.pipe(ops.concat(rx.of(1)))
     elif shape == "concat_after": o = rx.of(1).pipe(ops.concat(src))
     elif shape == "switch_map": o = rx.of(1).pipe(ops.switch_map(lambda _: src))
+    elif shape == "merge_maxc_parked": o = rx.of(rx.of(-1, -2), src).pipe(ops.merge(max_concurrent=1))
+    elif shape == "concat_map_parked": o = rx.of(0, 1).pipe(ops.concat_map(lambda i: rx.of(-1) if i == 0 else src))
     elif shape == "share": o = src.pipe(ops.share())
     elif shape == "amb": o = src.pipe(ops.amb(rx.never()))
     elif shape == "with_latest_from": o = src.pipe(ops.with_latest_from(rx.of(1)))
@@ -125,12 +136,12 @@ def _run(case):
     elif term == "element_at": o = o.pipe(ops.element_at(n - 1))
     else: o = o.pipe(ops.take_until(rx.of(1)))
     try:
-        o.subscribe(on_next=got.append, on_error=lambda e: got.append("E"))
+        o.subscribe(on_next=got.append, on_error=lambda e: got.append("E"), scheduler=sub_sched)
         first = pulls[0]
         # the same pipeline object subscribed again (what repeat/retry/concat(p, p) do): must be bounded as well
         pulls[0] = 0
         del got[:]
-        o.subscribe(on_next=got.append, on_error=lambda e: got.append("E"))
+        o.subscribe(on_next=got.append, on_error=lambda e: got.append("E"), scheduler=sub_sched)
         return {"status": "returned", "pulls": first, "pulls2": pulls[0]}
     except Budget:
         return {"status": "budget", "pulls": pulls[0]}
@@ -177,7 +188,10 @@ def classify(case, why):
     p, sh, t, sk = case["producer"], case["shape"], case["term"], case["sched"]
     if sk in ("immediate", "own_ct") and p in ("from_iterable", "range"):
         return "C14-explicit-scheduler"
-    if p == "from_iterable" and sk == "default" and (t == "take_until" or sh in ("flat_map_outer", "combine_latest")):
+    if sk in ("sub_immediate", "sub_own_ct"):
+        # the same finding through subscribe(scheduler=...): every producer takes the subscribe-time scheduler when it has none of its own
+        return "C14-explicit-scheduler"
+    if p == "from_iterable" and sk in ("default", "sub_singleton") and (t == "take_until" or sh in ("flat_map_outer", "combine_latest")):
         return "C14-loop-starves-queued"
     return None
 
